@@ -4,6 +4,8 @@
 //   StorageResolver::get_data_or_decode (file.rs)            decoded stream bytes through the stream cache
 //   Stream::data                        (object/stream.rs)   call site: ALL filters of the stream
 //   ImageXObject::raw_image_data        (object/types.rs)    call site: the filters BEFORE the image codec (a prefix)
+//   ObjectStream::{from_primitive, get_object_slice, _data} (object/stream.rs)  call sites via Stream::data; a direct call
+//                                       of get_data_or_decode written into them meets its labelled preconditions (whole data range!)
 //
 // C12 quantifies over call histories ("the answer to a call never depends on which calls came before it"). A contract
 // cannot say that. It reduces to a REPRESENTATION INVARIANT over the cache contents, which is contract-shaped:
@@ -52,6 +54,7 @@ use vstd::prelude::*;
 use std::sync::Arc;
 use core::marker::PhantomData;
 use core::ops::Range;
+use core::ops::Deref;
 //@@ INCLUDE _common/error_macros.rs
 verus! {
 global size_of usize == 8;
@@ -83,6 +86,8 @@ pub type Shared<T> = Arc<T>;
 //@@ enum StreamData
 //@@ struct Stream
 //@@ struct ImageXObject
+//@@ struct ObjStmInfo
+//@@ struct ObjectStream
 
 impl<T> Clone for Ref<T> { fn clone(&self) -> (r: Ref<T>) ensures r == *self { *self } }
 impl<T> Copy for Ref<T> {}
@@ -374,6 +379,21 @@ pub proof fn lemma_prefix_of_prefix(s: Seq<StreamFilter>, n: int)
     ensures 0 <= n <= s.len() ==> s.subrange(0, n).len() == n
 {}
 
+impl Object for ObjStmInfo {
+    #[verifier::external_body]
+    fn from_primitive<B, OC: Cache<ObjVal, ObjOrigin>, SC: Cache<StrVal, StreamArgs>, L: Log>(p: Primitive, resolve: &mut StorageResolver<B, OC, SC, L>) -> Result<Self> { unimplemented!() }
+}
+// parser/lexer: abstract here (no cache, no call-back; contracts and panic-freedom: units/lexer, units/objstm)
+#[verifier::external_body] pub struct Lexer<'a> { _p: PhantomData<&'a ()> }
+#[verifier::external_body] pub struct Substr<'a> { _p: PhantomData<&'a ()> }
+impl<'a> Lexer<'a> {
+    #[verifier::external_body] pub fn new(buf: &'a [u8]) -> (r: Lexer<'a>) { unimplemented!() }
+    #[verifier::external_body] pub fn next(&mut self) -> (r: Result<Substr<'a>>) { unimplemented!() }
+    #[verifier::external_body] pub fn next_as<T>(&mut self) -> (r: Result<T>) { unimplemented!() }
+}
+impl<'a> Substr<'a> {
+    #[verifier::external_body] pub fn to<T>(&self) -> (r: Result<T>) { unimplemented!() }
+}
 impl Object for ImageDict {
     #[verifier::external_body]
     fn from_primitive<B, OC: Cache<ObjVal, ObjOrigin>, SC: Cache<StrVal, StreamArgs>, L: Log>(p: Primitive, resolve: &mut StorageResolver<B, OC, SC, L>) -> Result<Self> { unimplemented!() }
@@ -408,9 +428,27 @@ impl<I: Object> Stream<I> {
             id == stream_id(doc, id.id) && range == stream_range(doc, id.id) && self.info.filters@ == stream_filters(doc, id.id)
     }
 //@@ Stream::data
+
+    // object/stream.rs `impl<I: Object> Object for Stream<I>`: from_primitive = PdfStream::from_primitive + StreamInfo::from_primitive
+    // (units/filterchain) + Stream::from_stream. RE-ENTRANT (indirect /Length, /Filter). Hypothesis: frame as for every reader,
+    // and the value DESCRIBES a stream of this document (see `describes`: by construction, not proved).
+    #[verifier::external_body]
+    pub fn from_primitive<B, OC: Cache<ObjVal, ObjOrigin>, SC: Cache<StrVal, StreamArgs>, L: Log>(p: Primitive, resolve: &mut StorageResolver<B, OC, SC, L>) -> (r: Result<Stream<I>>)
+        requires old(resolve).wf()
+        ensures reentrant_frame(*old(resolve), *final(resolve)), r matches Ok(s) ==> s.describes(old(resolve).storage.doc)
+    { unimplemented!() }
 }
 impl ImageXObject {
 //@@ ImageXObject::raw_image_data
+}
+impl<I> Deref for StreamInfo<I> {
+    type Target = I;
+//@@ StreamInfo::deref
+}
+impl ObjectStream {
+//@@ ObjectStream::from_primitive
+//@@ ObjectStream::get_object_slice
+//@@ ObjectStream::_data
 }
 
 }
